@@ -25,6 +25,7 @@ import (
 	"crypto/aes"
 	"crypto/cipher"
 	"fmt"
+	"strings"
 	"sync"
 
 	"github.com/lestrrat-go/jwx/v2/jwk"
@@ -197,7 +198,9 @@ func c03RunShared(ctx *core.Ctx, in c03Input, quietIfClean bool) (int, error) {
 		keys := map[string]jwk.Key{}
 		newKey := func(n int) string {
 			ks := octKey(r.Bytes(n))
-			k, _ := c03GetKey(ks)
+			// every key object of the scenario carries the SAME kid (and a plausible alg / use);
+			// the private twin of each operation is built without metadata
+			k, _ := c03GetKeyMeta(ks, fmt.Sprintf("kid=collide-%x;use=enc", in.Seed)) // one kid per scenario: a replay of this scenario alone sees the same collisions
 			keys[ks] = k.jwk
 			return ks
 		}
@@ -312,7 +315,8 @@ func c03RunShared(ctx *core.Ctx, in c03Input, quietIfClean bool) (int, error) {
 	addExtra(ctx, "shared_ops/"+in.What, total)
 	addExtra(ctx, "shared_mismatches", bad)
 	for _, op := range emit {
-		c03Ovr = &c03Override{obs: op.got, input: scenario, direct: 2, tag: tag,
+		got := op.got
+		c03Ovr = &c03Override{obs: &got, input: scenario, direct: 2, tag: tag,
 			note: fmt.Sprintf("operation on the shared instance differs from the same operation on a private instance (%d of %d operations differ): want %s/%s %d bytes, got %s/%s %d bytes %s",
 				bad, total, op.want.Class, op.want.Err, len(op.want.Out), op.got.Class, op.got.Err, len(op.got.Out), op.got.Note)}
 		_, err := c03Run(ctx, op.in)
@@ -322,7 +326,8 @@ func c03RunShared(ctx *core.Ctx, in c03Input, quietIfClean bool) (int, error) {
 		}
 	}
 	for _, op := range okSample {
-		c03Ovr = &c03Override{obs: op.got, input: scenario, tag: tag}
+		got := op.got
+		c03Ovr = &c03Override{obs: &got, input: scenario, tag: tag}
 		_, err := c03Run(ctx, op.in)
 		c03Ovr = nil
 		if err != nil {
@@ -341,22 +346,41 @@ func addExtra(ctx *core.Ctx, key string, n int) {
 // operation is judged on the spot (signature verified by Go's primitive, plaintext recovered);
 // the harness's verdict is the only one (no model term).
 func c03RunSharedAsym(ctx *core.Ctx, in c03Input, scenario []byte, tag string, r *hx.Rand, quietIfClean bool) (int, error) {
-	name := in.Kind
-	priv, err := c03GetKey(name)
-	if err != nil {
-		return 0, err
+	// Kind = one key name: ONE key object for all goroutines; Kind = "a,b,c": goroutine g uses key
+	// number g mod 3, distinct keys that all carry the same kid
+	names := strings.Split(in.Kind, ",")
+	type pair struct {
+		name      string
+		priv, pub *c03Key
+		algs      []string
 	}
-	pub, _ := c03GetKey(name + ".pub")
-	var algs []string
-	switch priv.kind {
-	case "rsa":
-		algs = []string{"RS256", "PS256", "RS384", "PS512", "RSA-OAEP", "RSA-OAEP-256", "RSA1_5"}
-	case "ec":
-		algs = []string{map[string]string{"ec256": "ES256", "ec384": "ES384", "ec521": "ES512"}[name]}
-	default:
-		algs = []string{"EdDSA"}
+	var pairs []pair
+	for _, name := range names {
+		meta := "-"
+		if len(names) > 1 {
+			meta = fmt.Sprintf("kid=collide-%x;use=sig", in.Seed)
+		}
+		priv, err := c03GetKeyMeta(name, meta)
+		if err != nil {
+			return 0, err
+		}
+		pub, _ := c03GetKeyMeta(name+".pub", meta)
+		var algs []string
+		switch priv.kind {
+		case "rsa":
+			algs = []string{"RS256", "PS256", "RS384", "PS512", "RSA-OAEP", "RSA-OAEP-256", "RSA1_5"}
+			if name == "rsa512" {
+				algs = []string{"RS256", "PS256", "RSA1_5", "RSA-OAEP"}
+			}
+		case "ec":
+			algs = []string{map[string]string{"ec256": "ES256", "ec384": "ES384", "ec521": "ES512"}[name]}
+		default:
+			algs = []string{"EdDSA"}
+		}
+		pairs = append(pairs, pair{name, priv, pub, algs})
 	}
 	type job struct {
+		kp     pair
 		alg    string
 		data   []byte
 		sig    []byte // independent signature over data (signature algorithms)
@@ -365,8 +389,9 @@ func c03RunSharedAsym(ctx *core.Ctx, in c03Input, scenario []byte, tag string, r
 	jobs := make([][]job, in.G)
 	for g := range jobs {
 		for it := 0; it < in.Iters; it++ {
-			alg := algs[r.Intn(len(algs))]
-			j := job{alg: alg}
+			kp := pairs[g%len(pairs)]
+			alg := kp.algs[r.Intn(len(kp.algs))]
+			j := job{kp: kp, alg: alg}
 			if c03AsymRoute[alg] {
 				j.data = r.Bytes(1 + r.Intn(20))
 			} else {
@@ -375,7 +400,7 @@ func c03RunSharedAsym(ctx *core.Ctx, in c03Input, scenario []byte, tag string, r
 					h = sigHash(alg).Size()
 				}
 				j.data = r.Bytes(h)
-				j.sig, _ = stdSign(alg, name, j.data)
+				j.sig, _ = stdSign(alg, kp.name, j.data)
 			}
 			jobs[g] = append(jobs[g], j)
 		}
@@ -396,27 +421,27 @@ func c03RunSharedAsym(ctx *core.Ctx, in c03Input, scenario []byte, tag string, r
 						}
 					}()
 					if c03AsymRoute[j.alg] {
-						ct, err := kit.EncryptPublicKey(j.data, j.alg, pub.jwk, nil)
+						ct, err := kit.EncryptPublicKey(j.data, j.alg, j.kp.pub.jwk, nil)
 						if err != nil {
 							j.failed = "EncryptPublicKey: " + err.Error()
 							return
 						}
-						pt, err := kit.DecryptPrivateKey(ct, j.alg, priv.jwk, nil)
+						pt, err := kit.DecryptPrivateKey(ct, j.alg, j.kp.priv.jwk, nil)
 						if err != nil || !bytes.Equal(pt, j.data) {
 							j.failed = fmt.Sprint("DecryptPrivateKey does not invert EncryptPublicKey: ", err)
 						}
 						return
 					}
-					sig, err := kit.SignPrivateKey(j.data, j.alg, priv.jwk)
-					if err != nil || !stdVerify(j.alg, name, j.data, sig) {
+					sig, err := kit.SignPrivateKey(j.data, j.alg, j.kp.priv.jwk)
+					if err != nil || !stdVerify(j.alg, j.kp.name, j.data, sig) {
 						j.failed = fmt.Sprint("SignPrivateKey: signature not accepted by Go's primitive: ", err)
 						return
 					}
-					if ok, err := kit.VerifyPublicKey(j.data, j.sig, j.alg, pub.jwk); !ok || err != nil {
+					if ok, err := kit.VerifyPublicKey(j.data, j.sig, j.alg, j.kp.pub.jwk); !ok || err != nil {
 						j.failed = fmt.Sprint("VerifyPublicKey rejects a signature made by Go's primitive: ", err)
 						return
 					}
-					if ok, _ := kit.VerifyPublicKey(j.data, flip(j.sig, len(j.sig)/2, 1), j.alg, priv.jwk); ok {
+					if ok, _ := kit.VerifyPublicKey(j.data, flip(j.sig, len(j.sig)/2, 1), j.alg, j.kp.priv.jwk); ok {
 						j.failed = "VerifyPublicKey accepts an altered signature"
 					}
 				}()
@@ -489,4 +514,7 @@ func c03GenShared(ctx *core.Ctx) {
 	for _, name := range []string{"rsa1024", "ec256", "ec384", "ec521", "ed25519"} {
 		run("asymkey", name, 6, 12*it)
 	}
+	// distinct keys that carry one kid, each goroutine its own
+	run("asymkey", "rsa1024,rsa2048,rsa512", 6, 12*it)
+	run("asymkey", "rsa1024,ec256,ed25519,ec384", 8, 12*it)
 }
